@@ -1,4 +1,5 @@
 import NflowsModel.Audit.Tool
 import NflowsModel.Properties.C03
+import NflowsModel.Properties.C03ND
 
 #audit_namespace Properties.C03
